@@ -16,7 +16,7 @@ from abc import ABCMeta, abstractmethod
 import uuid
 
 from stix2.datastore.filters import Filter, FilterSet
-from stix2.utils import deduplicate
+from stix2.utils import _timestamp_sort_key, deduplicate
 
 
 def make_id():
@@ -483,6 +483,9 @@ class CompositeDataSource(DataSource):
         stix_obj = latest_ver = None
         for obj in all_data:
             ver = obj.get("modified") or obj.get("created")
+
+            if ver is not None:
+                ver = _timestamp_sort_key(ver)
 
             if stix_obj is None or ver is None or ver > latest_ver:
                 stix_obj = obj
